@@ -62,6 +62,10 @@ pub fn drive(args: &[String]) {
     // all connected D-sets with every branching assignment up to 4 (capped per D-set)
     corpus.extend(sets_with_branching(2, maxset, &[1, 2, 3, 4], 24, &mut rng).into_iter().filter(|s| s.size() >= 3));
     corpus.extend(sets_with_branching(2, maxset, &[1, 5, 7, 12], 4, &mut rng));
+    // every branching value from 8 to 16 on small D-sets (the orbifold symbol brackets orders of two digits: the boundary
+    // between the two notations, 9 | (10), must be hit exactly)
+    corpus.extend(sets_with_branching(2, 3, &[8, 9, 10, 11, 12, 13, 16], 6, &mut rng));
+    corpus.extend(sets_with_branching(2, 2, &[1, 9, 10, 11], 1000, &mut rng));
     for s in &corpus {
         let mut e = json!({"ev": "geom2d", "base": geom(s)});
         let mut vs = vec![];
